@@ -16,7 +16,7 @@ CONFIGS = {
     'shapes': dict(BASE, MaxNodes=2, Keys=['k1', 'k1f', 'Q', 'U', 'M'], MapTags=['map', 'set'],
                    SeqTags=['seq', 'omap', 'pairs']),
     # several merge keys (mapping and list valued) over shared sources, sources reused after the merging mapping
-    'mlist4': dict(BASE, MaxNodes=4, Keys=['k1', 'k2', 'M'], Vals=['v1'], MaxElems=1, Modes=['C'], AllowSelf=False,
+    'mlist4': dict(BASE, MaxNodes=4, Keys=['k1', 'k2', 'M'], Vals=['v1'], MaxElems=1, Modes=['D'], AllowSelf=False,
                    MergeShape='"refs"'),
     # thorough only
     'merge3w': dict(BASE, Vals=['v1', 'v2'], Modes=['A', 'B', 'C']),
